@@ -436,6 +436,38 @@ def run(ctx: Ctx) -> None:
                     continue
                 seen_fail.add(key)
                 ctx.failures.append(Failure('update-class', canon, replay, f'{b["where"]}: {b["what"]}'))
+        # history pass: the same body is first decoded by the OTHER session (2-byte / 4-byte AS numbers), then by its
+        # own, with everything the process keeps between messages left in place.  What is malformed for a session stays
+        # malformed whatever another session made of the same bytes a moment ago.
+        rig.Session.keep_caches = True
+        try:
+            hist = [c for c, _, _ in results]
+            ctx.rng.shuffle(hist)
+            for case in hist[: (250 if ctx.tier == 'quick' else 6000)]:
+                if ctx.time_left() < (15 if ctx.tier == 'quick' else 60):
+                    break
+                body = case['body']
+                S[not case['asn4']].unpack(body)
+                u = S[case['asn4']].unpack(body)
+                S[not case['asn4']].read(body)
+                r = S[case['asn4']].read(body)
+                ctx.evaluations += 1
+                ctx.count('history:other-session-first')
+                for b in oracle(u, r, body, case['asn4']):
+                    ctx.count('oracle-fail-history:' + b['group'])
+                    key0 = json.dumps(breach_key(b))
+                    if key0 in seen_fail:
+                        continue
+                    seen_fail.add(key0)
+                    k = breach_key(b)
+                    canon = {'class': k[0], 'code': b.get('code'), 'corruption': b.get('group'), 'nlri': b.get('nlri'), 'history': 'other-session-first'}
+                    key = json.dumps(canon, sort_keys=True)
+                    if key in seen_fail:
+                        continue
+                    seen_fail.add(key)
+                    ctx.failures.append(Failure('update-class', canon, {'asn4': case['asn4'], 'body': body.hex(), 'kind': case['kind'], 'code': case['code'], 'history': 'other-session-first'}, f'{b["where"]} (after the other session decoded the same bytes): {b["what"]}'))
+        finally:
+            rig.Session.keep_caches = False
     finally:
         for s in S.values():
             s.close()
@@ -446,8 +478,17 @@ def replay(path: str) -> int:
     rp = data['replay']
     s = rig.Session(bool(rp['asn4']))
     body = bytes.fromhex(rp['body'])
-    u = s.unpack(body)
-    r = s.read(body)
+    if rp.get('history') == 'other-session-first':
+        rig.Session.keep_caches = True
+        other = rig.Session(not bool(rp['asn4']))
+        other.unpack(body)
+        u = s.unpack(body)
+        other.read(body)
+        r = s.read(body)
+        other.close()
+    else:
+        u = s.unpack(body)
+        r = s.read(body)
     _, block, _ = rig.split_body(body)
     occ, cut = rig.rfc_walk(block)
     print('body        :', body.hex())
